@@ -229,14 +229,42 @@ func complexKeys(a *hcli.Args, rep *report.Report, u *schema.Universe) {
 	}
 }
 
+// bearsMap reports whether a value of t can hold a map.
+func bearsMap(t *schema.Type, seen map[*schema.Type]bool) bool {
+	if t == nil || seen[t] {
+		return false
+	}
+	seen[t] = true
+	switch t.Kind {
+	case schema.Map:
+		return true
+	case schema.Array, schema.Typeref:
+		return bearsMap(t.Elem, seen)
+	case schema.Record:
+		for _, f := range t.AllFields() {
+			if bearsMap(f.Type, seen) {
+				return true
+			}
+		}
+	case schema.Union:
+		for _, m := range t.Members {
+			if bearsMap(m.Type, seen) {
+				return true
+			}
+		}
+	}
+	return false
+}
+
 func partC10(a *hcli.Args, rep *report.Report, univName string, u *schema.Universe) {
 	complexKeys(a, rep, u)
 	s := rep.S("equals-hash-pairs")
 	s.Bounds = fmt.Sprintf("universe=%s: per wrapper, pool = reduced deviation<=1 alphabet + copies + map insertion orders + nil/empty swaps + round-tripped copies; all ordered pairs", univName)
 	digest := sha256.New()
 	for wi, w := range u.Wrappers {
-		// the first 6 wrappers are hashed by every shard: hashes must agree across processes
-		common := wi < 6
+		// the first 6 wrappers and every wrapper holding a map are hashed by every shard: hashes must agree across
+		// processes, each of which runs with its own Go map-iteration start (VERIF_MAPROT, runtime overlay)
+		common := wi < 6 || bearsMap(w, map[*schema.Type]bool{})
 		if !a.Mine(wi) && !common {
 			continue
 		}
